@@ -213,6 +213,21 @@ def body(prop, args, seed, t0):
             return 2
     # --- T5 end
 
+    # --- T1: the gate-CLASS translator (harness/translate_cls.py -> OQ/Generated/TranslatedGates.lean, tied to the models of
+    #     C07 and C06 by Props/C0x_TranslatedGates.lean) is compared with the real Python classes on every run of C06 / C07
+    if prop in ("C06", "C07") and driver.available():
+        from harness import gates_check
+        n3, bad3, notes3 = gates_check.run(seed)
+        tie.update({"translated_gate_classes_vs_python_classes": n3, "gate_classes_untranslatable_now": notes3,
+                    "translated_gate_classes": "circuits/_gates.py: MatrixFactoryGate, ControlledGate, Dagger, Exponential, Power "
+                                               "-> OQ.Generated.TranslatedGates (harness/translate_cls.py)"})
+        if bad3:
+            for b in bad3[:10]:
+                print("  class-translator disagreement:", b)
+            print(f"INTERNAL-ERROR property={prop} (the Python->Lean translation of the gate classes misrenders the code; no verdict)")
+            return 2
+    # --- T1 end
+
     # ---- 3. correspondence + oracle
     if args.replay:
         rp = json.load(open(args.replay))
